@@ -151,7 +151,12 @@ def _case_prf_sum(case):
     smin, smax = min(sx, sy), max(sx, sy)
     rot = _rotated(p)
     aliasing = bool(rot and 8.0 * np.exp(-2 * np.pi ** 2 * smin ** 2) >= 1e-10)
-    half = int(np.ceil(4.0 + 8.5 * smax * (np.sqrt(2.0) if rot else 1.0)))
+    # window: centre offset + the largest lattice shift used below (2) + half a pixel + 8.5 sigma
+    # (a fixed margin of 4 px was too small for |x_0| ~ 3 together with the shifted lattice: the tail
+    # beyond the window was 6e-8 of the flux in one thorough case - a harness error, not a library one)
+    half = int(np.ceil(max(abs(p['x_0']), abs(p['y_0'])) + 2.5
+                       + 8.5 * smax * (np.sqrt(2.0) if rot else 1.0)))
+    half = max(half, 5)
     case.params = dict(kind=kind, **p, half=half)
     case.nontrivial = (p['x_0'], p['y_0']) != (0.0, 0.0)
     m = _make(kind, p)
